@@ -324,4 +324,33 @@ theorem shuffle_surj {α} [Inhabited α] (l l' : List α) (rest : List Nat) (hp 
 example : ∃ o : List Nat, shuffle (o ++ [7, 7]) [10, 20, 30] = ([30, 10, 20], [7, 7]) := shuffle_surj _ _ _ (by decide)
 
 
+/-! ### the precondition the repaired constructor still needs -/
+
+
+/-- `Trie({2,2})`, two inserts of `{0:1}`, `erase(1)`: the *most recent* entry was erased — ids `{0}`, next id 2 -/
+def trailTrie : T := ⟨[2, 2], 2, [[[], [0], []], [[], [], [0]]]⟩
+
+theorem trailTrie_reachable :
+    (T.mk? [2, 2]).map (fun t => ((t.insert [(0, 1)]).1.insert [(0, 1)]).1.erase 1) = some trailTrie := rfl
+
+theorem trailTrie_RI : RI trailTrie [(0, [(0, 1)])] := by
+  have h0 : RI (⟨[2, 2], 0, [[[], [], []], [[], [], []]]⟩ : T) [] := RI_mk (F := [2, 2]) rfl
+  have v : ValidPF [2, 2] [(0, 1)] := by simp [ValidPF, KeysAsc]
+  exact RI_erase (RI_insert (RI_insert h0 v) v) 1
+
+/-- **what the id-range test cannot see** (the precondition fixes/C20-4 leaves to the documentation): a trie whose most recent entry was erased
+    holds only ids inside a container of its size, so the repaired constructor accepts it; the next `emplace` pairs item position 1 with id 2,
+    and the filter then hands out id 2 of a 2-item container.  The invariant `FMInv` (`counter = #items`) is what excludes it. -/
+theorem ofTrieChecked_trailing_counterexample :
+    (FM.ofTrieChecked false trailTrie [42]).map (fun r => r.map (fun m => m.items)) = some (some [42]) ∧
+      ((⟨trailTrie, [42]⟩ : FM).emplace [(0, 1)] 43).filterChecked false [(0, 1)] = some [some 42, none] := by
+  have hF : trailTrie.F ≠ [] := by simp [trailTrie]
+  refine ⟨by simp only [FM.ofTrieChecked, size_spec trailTrie_RI hF, getAllIds_spec trailTrie_RI hF, Option.bind_some, Option.map_some]; decide, ?_⟩
+  have v : ValidPF trailTrie.F [(0, 1)] := by simp [ValidPF, KeysAsc, trailTrie]
+  have hRI := RI_insert trailTrie_RI v
+  have hq : ValidQ (trailTrie.insert [(0, 1)]).1.F [(0, 1)] := by intro kv hkv; simp at hkv; subst hkv; decide
+  simp only [FM.filterChecked, FM.emplace, filter_spec hRI false [(0, 1)] hq (by simp), Option.map_some]
+  decide
+
+
 end AITB.Trie
